@@ -14,7 +14,8 @@ What is modelled, operation by operation, as the code is NOW (after the commit
   alternatives tied in the original ranking is unspecified.  The order of the non-best
   alternatives is therefore an *input* of the model (`order`), required only to be a sort of the
   original ranking (`isOrderOf`); nothing below depends on how ties are broken.
-* `_mutate_dm` (`mutate`): refuses (`ValueError`) when no gap of the row is `> 0`; otherwise one draw
+* `_mutate_dm` (`mutate`): refuses (`ValueError`) when no gap of the row is `> 0` (and NumPy's
+  `uniform(0, b)` refuses a negative `b`, which only a custom strategy can produce); otherwise one draw
   `u ∈ [0,1)` per criterion from the stream (`Generator.uniform(0, b) = b * Generator.random()`),
   `noise_j = gap_j * u_j`, redrawn while every `noise_j` is zero (with fuel), negated on maximise
   criteria, added to exactly one row.  The pre-fix loop without the refusal is `mutate_v0`.
@@ -160,14 +161,20 @@ def mutRows : List String → List (List α) → String → List α → List (Li
 def withRow (d : DM α) (a : String) (noise : List α) : DM α :=
   { d with cells := mutRows d.alts d.cells a noise }
 
-/-- the pre-fix `_mutate_dm`: no refusal, the loop alone -/
+/-- a negative bound (only a custom `last_diff_strategy` can produce one): `Generator.uniform(0, b)`
+raises `ValueError` ("high - low < 0") -/
+def hasNeg (gaps : List α) : Bool := gaps.any fun g => decide (g < 0)
+
+/-- the pre-fix `_mutate_dm`: no refusal of its own, the loop alone -/
 def mutate_v0 (fuel : Nat) (d : DM α) (a : String) (gaps : List α) (draws : Nat → α) (pos : Nat) :
     Except Err (DM α × List α × Nat) :=
-  match drawUntilNonzero fuel gaps draws pos with
-  | none => .error .outOfFuel
-  | some (nz, pos') =>
-    let noise := signNoise d.objs nz
-    .ok (withRow d a noise, noise, pos')
+  if hasNeg gaps then .error .valueError
+  else
+    match drawUntilNonzero fuel gaps draws pos with
+    | none => .error .outOfFuel
+    | some (nz, pos') =>
+      let noise := signNoise d.objs nz
+      .ok (withRow d a noise, noise, pos')
 
 /-- `np.any(alternative_max_abs_noise > 0)` -/
 def hasRoom (gaps : List α) : Bool := gaps.any fun g => decide (0 < g)
